@@ -5,7 +5,9 @@ import (
 	"math/rand/v2"
 	"syscall"
 
+	"github.com/buildbarn/bb-remote-execution/pkg/filesystem/virtual"
 	re_fuse "github.com/buildbarn/bb-remote-execution/pkg/filesystem/virtual/fuse"
+	"github.com/buildbarn/bb-storage/pkg/filesystem/path"
 	"github.com/hanwen/go-fuse/v2/fuse"
 
 	"verif/internal/ev"
@@ -82,7 +84,12 @@ type (
 	}
 	// pageResumer reports the offset to resume from when a page ended
 	// before the first real entry (FUSE "." and "..").
-	pageResumer interface{ resumeOffset() uint64 }
+	pageResumer interface {
+		resumeOffset() uint64
+		// directoryNotReached: the page was full before the listing of
+		// the directory itself began (nothing was fetched or listed).
+		directoryNotReached() bool
+	}
 )
 
 func (x *feExec) bind(n *vfsh.Node, e entryInfo) {
@@ -226,10 +233,18 @@ func (x *feExec) do(op vfsh.Op) {
 		got, entries, end := x.fe.readdir(d, s.Cookie, s.PageSize, s.Locked)
 		x.calls[op.K+"/"+got]++
 		step.Want, step.Got = vfsh.OK, got
+		if pr, ok := x.fe.(pageResumer); ok && pr.directoryNotReached() {
+			// Only "." and/or ".." fitted: the directory was not touched.
+			x.status(vfsh.OK, got)
+			s.Cookie = pr.resumeOffset()
+			m.Sit["listing-page-ended-at-dot-entry"]++
+			step.Note = "page ended at a dot entry"
+			return
+		}
 		for _, rule := range m.Page(s, got, entries, end) {
 			x.bad(rule, fmt.Sprintf("session %d dir %d page %d cookie %d entries %v", s.ID, d.ID, s.Pages, s.Cookie, entries))
 		}
-		if pr, ok := x.fe.(pageResumer); ok && len(entries) == 0 && !end {
+		if pr, ok := x.fe.(pageResumer); ok && len(entries) == 0 && !end && got == vfsh.OK {
 			if off := pr.resumeOffset(); off != 0 {
 				s.Cookie = off
 				m.Sit["listing-page-ended-at-dot-entry"]++
@@ -308,6 +323,24 @@ func runFrontEndCase(r *ev.Run, phase string, cfgIdx int, base vfsh.Config, i in
 		m.Root.Bound, m.Root.Ino = true, e.ino
 	}
 	gen := &vfsh.Gen{M: m, R: rng, P: vfsh.Profile{KernelOnly: true, NoBadTargets: true, UniqueTargets: phase == "fuse", MaxDirs: 8, MaxNames: 7}}
+	// Two lazily fetched directories below the root (put there through the
+	// worker-facing API, as bb_worker does with input roots): their fetchers
+	// fail once or twice before they succeed, so that the front ends see a
+	// failed materialisation (EIO) followed by a successful retry.
+	for k := 0; k < 2; k++ {
+		spec := gen.NewLazySpec(0)
+		if spec.Failures == 0 {
+			spec.Failures = 1 + k
+		}
+		name := fmt.Sprintf("lz%d", k)
+		if err := env.Root.CreateChildren(map[path.Component]virtual.InitialChild{path.MustNewComponent(name): virtual.InitialChild{}.FromDirectory(env.NewFetcher(spec))}, false); err != nil {
+			panic(err)
+		}
+		if r := m.CreateChildren(m.Root, []vfsh.NewChild{{Name: name, Kind: vfsh.KDir, Lazy: spec}}, false); r.Status != vfsh.OK {
+			panic("model: cannot seed lazy directory")
+		}
+		x.do(vfsh.Op{K: "VirtualLookup", D: m.Root.ID, N: name, Why: "seed"})
+	}
 	hk, _ := x.fe.(housekeeper)
 	for s := 0; s < steps && !failed; s++ {
 		x.do(gen.Next())
@@ -349,8 +382,9 @@ type fuseFrontEnd struct {
 	x   *feExec
 	rng *rand.Rand
 	// lookups counts the references the "kernel" holds on every node id.
-	lookups    map[uint64]uint64
-	lastResume uint64
+	lookups        map[uint64]uint64
+	lastResume     uint64
+	lastNotReached bool
 }
 
 func newFuseFrontEnd(env *vfsh.Env, x *feExec, rng *rand.Rand) *fuseFrontEnd {
@@ -362,7 +396,8 @@ func newFuseFrontEnd(env *vfsh.Env, x *feExec, rng *rand.Rand) *fuseFrontEnd {
 	}
 }
 
-func (f *fuseFrontEnd) resumeOffset() uint64 { return f.lastResume }
+func (f *fuseFrontEnd) resumeOffset() uint64      { return f.lastResume }
+func (f *fuseFrontEnd) directoryNotReached() bool { return f.lastNotReached }
 
 // got records that the file system handed out one more reference to a node.
 func (f *fuseFrontEnd) got(s fuse.Status, out *fuse.EntryOut) {
@@ -579,19 +614,21 @@ func (f *fuseFrontEnd) remove(d *vfsh.Node, name string, rmDir, rmLeaf bool) (st
 }
 
 type fuseDirList struct {
-	limit     int
-	countDots bool // "." and ".." use up room of the page as well
-	dots      int
-	lastDot   uint64
-	entries   []vfsh.Reported
-	refused   bool
-	plus      []*fuse.EntryOut
+	limit      int
+	countDots  bool // "." and ".." use up room of the page as well
+	dots       int
+	dotRefused bool
+	lastDot    uint64
+	entries    []vfsh.Reported
+	refused    bool
+	plus       []*fuse.EntryOut
 }
 
 func (l *fuseDirList) add(e fuse.DirEntry) bool {
 	if e.Name == "." || e.Name == ".." {
 		if l.countDots && l.dots >= l.limit {
 			l.refused = true
+			l.dotRefused = true
 			return false
 		}
 		l.dots++
@@ -628,6 +665,7 @@ func (f *fuseFrontEnd) readdir(d *vfsh.Node, cookie uint64, limit int, plus bool
 	in := &fuse.ReadIn{InHeader: f.hdr(d), Offset: cookie}
 	defer func() {
 		f.lastResume = 0
+		f.lastNotReached = l.dotRefused
 		if len(l.entries) == 0 && l.dots > 0 {
 			f.lastResume = l.lastDot
 		}
